@@ -6,7 +6,8 @@
  *   espconn_sent answers `live` while link==2 and `dead` otherwise (CFG dead=<r>, SENTMODE <r>).
  * Events:  ADV <us> | WIFI <status> | CONNCB | DISCCB | RECV : <hex> | SENTMODE <r> | SENTRES r r ... |
  *          LOCAL <api> <a> <b>   (direct call of a public devconn function that contains an srpc call site)
- * Outputs: WIFISTART t | CONNECT t | DISCONNECT t | FRESH t conn sendbuf recvbuf registered |
+ * Outputs: WIFISTART t | CONNECT t | DISCONNECT t | FRESH t conn sendbuf recvbuf registered evi | RX t conn evi | DISCD t conn evi |
+ *          (evi = index of the event line in the case; RX/DISCD/FRESH tell which callbacks the SDK model delivered)
  *          WIRE t conn call_id rr_id : payload | JUNK t conn nbytes | RESTART t |
  *          STATE t registered srpc started sendbuf recvbuf link timeout fired
  */
@@ -130,12 +131,13 @@ static void run_case(int n, char **lines) {
         struct espconn *e = vd_espconn();
         c4_link = L_LIVE; c4_conn++; c4_wire_n = 0; c4_stalled = 0; c4_set_default();
         if (e && e->proto.tcp && e->proto.tcp->connect_callback) e->proto.tcp->connect_callback(e);
-        vout("FRESH %llu %d %d %u %d", v_now, c4_conn, vd_send_buffer_len(), vd_recvbuff_size(), vd_registered());
+        vout("FRESH %llu %d %d %u %d %d", v_now, c4_conn, vd_send_buffer_len(), vd_recvbuff_size(), vd_registered(), i);
       }
     } else if (!strncmp(l, "DISCCB", 6)) {
       if (c4_link == L_LIVE || c4_link == L_CLOSING) {
         struct espconn *e = vd_espconn();
         if (c4_link == L_LIVE) c4_wire_close();
+        vout("DISCD %llu %d %d", v_now, c4_conn, i);
         c4_link = L_IDLE; c4_set_default();
         if (e && e->proto.tcp && e->proto.tcp->disconnect_callback) e->proto.tcp->disconnect_callback(e);
       }
@@ -143,6 +145,7 @@ static void run_case(int n, char **lines) {
       if (c4_link == L_LIVE) {
         char *c = strchr(l, ':'); int k = c ? hex2bytes(c + 1 + (c[1] == ' '), buf, sizeof buf) : 0;
         struct espconn *e = vd_espconn();
+        vout("RX %llu %d %d", v_now, c4_conn, i);
         if (e && e->recv_callback) e->recv_callback(e, (char *)buf, (unsigned short)k);
       }
     } else if (!strncmp(l, "SENTMODE ", 9)) { c4_live_res = atoi(l + 9); c4_set_default(); }
